@@ -135,6 +135,7 @@ class Machine:
         s.max_steps = 400_000_000
         s.stack = []
         s.fn_steps = {}
+        s.cov = {}
         # harness interface
         s.obligations = []      # dict(kind,a,b,tag,k,nass,ndiv)
         s.assumptions = []      # Bool terms: vassume + path conditions, in order
@@ -696,6 +697,9 @@ class Machine:
         s.stack.append(f.name)
         steps0 = s.steps
         const = s.const
+        cov = s.cov.get(f.name)
+        if cov is None:
+            cov = s.cov[f.name] = set()
 
         def val(t, o):
             if o[0] == 'local':
@@ -704,6 +708,7 @@ class Machine:
         try:
             while True:
                 ins_list = blocks[cur]
+                cov.add(cur)
                 k = 0
                 if ins_list[0].op == 'phi':
                     newv = []
